@@ -190,6 +190,23 @@ def rule_expiry(ctx, R):
             # form C: max_idle OP current - last_updated
             elif (a.kind == 'call' or a.kind == 'place') and c_.strip().kind == 'bin' and c_.strip().name == 'Sub':
                 rec = ({'Lt': 'Lt', 'Le': 'Le', 'Gt': 'Gt', 'Ge': 'Ge'}[op], 'C', True)
+            # form D: max_idle OP current.saturating_sub(last_updated [+ k]) - the overflow-safe spelling. Over the
+            # naturals it equals `last_updated + max_idle < current` exactly for k = 0 with `<` (when the subtraction
+            # saturates, i.e. current <= last_updated, `max_idle < 0` is false like the reference); with k = 1 and `<=`
+            # the saturated case answers `max_idle <= 0`, which is TRUE for max_idle = 0: a track expires in the very
+            # epoch it was updated in
+            elif any(x.kind == 'call' and x.name.rsplit('::', 1)[-1] == 'saturating_sub' and len(x.args) == 2
+                     for x in c_.walk()):
+                ss = [x for x in c_.walk() if x.kind == 'call' and x.name.rsplit('::', 1)[-1] == 'saturating_sub'][0]
+                cur_ok = ss.args[0].has_call('get') and any(x.kind == 'place' and x.root == ('param', 2) for x in ss.args[0].walk())
+                sub = ss.args[1]
+                k_ = 0
+                if any(x.kind == 'bin' and x.name in ('Add', 'AddWithOverflow') for x in sub.walk()):
+                    cs = [x for x in sub.walk() if x.kind == 'const']
+                    k_ = int(cs[0].const_value()) if cs and str(cs[0].const_value()).isdigit() else None
+                last_ok = any(x.kind == 'place' and x.root == ('param', 3) for x in sub.walk())
+                bare = c_.strip() is ss or c_ is ss or repr(c_.strip()) == repr(ss)
+                rec = (op if (k_ == 0 and bare) else 'saturating(k=%s)%s' % (k_, op), 'C', cur_ok and last_ok)
         if variant == 'Wasted':
             n += 1
             if rec is None:
@@ -907,4 +924,29 @@ def rule_batch_request(ctx, R):
                   'whole batch (%s) - a scene added in two separate runs gets two entries, two epochs and two voting jobs'
                   % (recv, ', '.join(bypos) or 'no keyed lookup'), c.ln)
         keyed += bool(bykey)
+    return n
+
+
+def rule_epochs_never_forgotten(ctx, R):
+    """the per-scene epoch counters only grow: nothing removes, retains, drains or clears entries of the epoch map (an
+    evicted scene restarts at epoch 1: its tracks look fresh again, its records repeat epochs)"""
+    n = 0
+    bad = []
+    for b in ctx.F.all_bodies():
+        if b.d.get('expn') or b.npath.startswith('examples') or '::tests::' in b.npath:
+            continue
+        for c in b.find_calls():
+            if c.name in ('remove', 'remove_entry', 'retain', 'clear', 'drain', 'extract_if', 'pop_first', 'pop_last') and \
+                    'HashMap' in c.callee and c.args and c.args[0].get('k') in ('copy', 'move'):
+                ty = b.locals[c.args[0]['pl']['l']].replace('std::collections::', '')
+                if 'HashMap<u64, usize>' in ty.replace(' ', '').replace('HashMap<u64,usize>', 'HashMap<u64, usize>'):
+                    e = ExprBuilder(b).arg(c, 0)
+                    if any(y.kind == 'call' and y.name.rsplit('::', 1)[-1] in ('epoch_store', 'epoch_db') for y in e.walk()) or \
+                            e.has_field('epoch_db') or e.has_field('epoch_store'):
+                        bad.append((b, c))
+    n += 1
+    api = ctx.anchor(R, 'trackers::epoch_db::EpochDb::next_epoch')
+    ctx.check(not bad, R, api or 'trackers::epoch_db::EpochDb', 'epoch-map-only-grows', '',
+              'entries of the per-scene epoch map are removed (%s): a scene whose counter is dropped restarts at epoch 1' % [
+                  '%s in %s' % (c.name, b.npath.rsplit('::', 1)[-1]) for b, c in bad], bad[0][1].ln if bad else '')
     return n
